@@ -378,6 +378,20 @@ def main() -> int:
         return 0
     if a[0] == "replay":
         return replay(a[1])
+    if a[0] == "unit":  # dev: python -m symx unit <module> <unit-name-substring> [budget_s]
+        sys.path.insert(0, os.environ.get("SYMX_SRC", "/repo/src"))
+        from . import core
+
+        mod = importlib.import_module(a[1])
+        us = [u for t in ("quick", "thorough") for u in mod.units(t) if a[2] in u["name"]]
+        u = us[0]
+        r = core.explore(u["fn"], u.get("params", {}), budget_s=float(a[3]) if len(a) > 3 else 60, per_path_s=u.get("per_path_s", 20))
+        for c in r["refuted"]:
+            c["replay"] = core.run_concrete(u["fn"], u.get("params", {}), c["inputs"])
+        r.pop("samples", None)
+        print(u["name"])
+        print(json.dumps(r, indent=1)[:6000])
+        return 0
     tier = a[1] if len(a) > 1 else os.environ.get("VERIF_TIER", "quick")
     return check_property(a[0], tier)
 
